@@ -27,7 +27,11 @@ def value_sets(field, default, idx):
     """(env value, file value, cli value) triples"""
     k = field["kind"]
     if k == "bool":
-        return [dict(env=a, file=b, cli=c) for a, b, c in itertools.product([default, not default], repeat=3)]
+        out = [dict(env=a, file=b, cli=c) for a, b, c in itertools.product([default, not default], repeat=3)]
+        # the spellings a boolean may have in the environment (strconv.ParseBool's: 1 t T TRUE true True 0 f F FALSE false False)
+        for raw, val in (("1", True), ("t", True), ("0", False), ("F", False), ("TRUE", True), ("False", False)):
+            out.append(dict(env=val, file=not val, cli=not val, env_raw=raw))
+        return out
     if k == "int":
         mk = lambda n: 20000 + 1000 * n + idx
     else:
@@ -48,9 +52,36 @@ def value_sets(field, default, idx):
         out.append(dict(env=0, file=65535, cli=0))
     if k == "string" and field["yaml"] != "cpu-cap":
         out.append(dict(env="/e/dc=ams/x=%d" % idx, file="/f/k=v-%d" % idx, cli="/c/a=b=c-%d" % idx))
+        # addresses: the IPv6 wildcard and prefixes end in colons; words that mean something to a YAML reader
+        out.append(dict(env="::", file="fd00:%d::" % idx, cli="::1"))
+        out.append(dict(env="fd00:%d::" % idx, file="::", cli="[::]"))
+        out.append(dict(env="null", file="~%d" % idx, cli="no"))
+        out.append(dict(env="[a, b]", file="{a: %d}" % idx, cli="- x"))
         # values are taken literally from every source: '$' names, '%', '#', ':' and spaces mean nothing
         out.append(dict(env="/e/$HOME/%%d-%d" % idx, file="/f/ipfix$tpl.${USER}#x: y-%d" % idx, cli="/c/$1 ${PATH}-%d" % idx))
     return out
+
+
+def reload_stage(ctx, drv, d):
+    """the whole GetOptions() as main() calls it; then a SIGHUP (a collector that re-reads its configuration on it must keep
+    the command line's values; one that does not handle it is shielded by the driver's own handler); the options again"""
+    out = os.path.join(d, "reload.json")
+    rc, log, to = ctx.go_run(drv, "TestVerifOptionsReload", env={"VERIF_OUT": out, "VERIF_RELOAD": 1}, timeout=120)
+    ctx.count(["reload-after-sighup"])
+    if rc != 0 or to or not os.path.exists(out):
+        raise vlib.Infra("options reload driver failed:\n" + log[-1500:])
+    r = json.load(open(out))
+    want = {"ipfix-workers": 22, "ipfix-tpl-cache-file": "/c/ipfix.templates", "verbose": True, "netflow9-workers": 12, "sflow-workers": 13}
+    for when in ("before", "after"):
+        diff = {k: (want[k], r[when].get(k)) for k in want if r[when].get(k) != want[k]}
+        if diff:
+            ctx.violation("GetOptions() with file, environment and command line%s: %s" %
+                          (" - after a SIGHUP to the running process" if when == "after" else "",
+                           "; ".join("%s must be %r (%s), it is %r" % (k, a, "command line" if k in ("ipfix-workers", "ipfix-tpl-cache-file", "verbose") else "file", b)
+                                     for k, (a, b) in sorted(diff.items()))),
+                          {"when": when, "options": r[when]}, key="reload:" + when)
+            break
+    ctx.traces_validated += 1
 
 
 def check(ctx):
@@ -95,7 +126,7 @@ def check(ctx):
             continue
         for vs in value_sets(f, defaults[f["yaml"]], idx):
             for s in subsets:
-                env = {f["env"]: (yaml_val(f["kind"], vs["env"]) if f["kind"] != "string" else str(vs["env"]))} if s["env"] else {}
+                env = {f["env"]: vs.get("env_raw") or (yaml_val(f["kind"], vs["env"]) if f["kind"] != "string" else str(vs["env"]))} if s["env"] else {}
                 if s["env"] and env[f["env"]] == "":
                     continue
                 file = ("%s: %s\n" % (f["yaml"], yaml_val(f["kind"], vs["file"]))) if s["file"] else None
@@ -155,5 +186,6 @@ def check(ctx):
         if others:
             ctx.violation("setting option %s changed other options: %s" % (f["yaml"], others), {"case": c})
     ctx.traces_validated += len(cases)
+    reload_stage(ctx, drv, d)
     ctx.extra["options_covered"] = len(fields)
     ctx.sample({"case": cases[len(cases) // 2], "expected_winner": meta[len(cases) // 2][2]["winner"]})
